@@ -197,7 +197,30 @@ func ruleGlobals(p *Prog, r *Result) {
 		idx := 0
 		allInstrs(fn, func(in ssa.Instruction) {
 			ld, ok := in.(*ssa.UnOp)
-			if !ok || ld.Op != token.MUL || !isGlobal(ld.X) || !isRef(ld.Type()) {
+			if !ok || ld.Op != token.MUL || !isGlobal(ld.X) {
+				return
+			}
+			if !isRef(ld.Type()) {
+				// a struct (or array) value holding references: copying it shares whatever its fields point to
+				if containsRef(ld.Type(), 0) {
+					nLoads++
+					idx++
+					g := ld.X.(*ssa.Global)
+					key := fmt.Sprintf("%s|load of %s#%d", p.FName(fn), g.Name(), idx)
+					bad := ""
+					for _, u := range *ld.Referrers() {
+						switch x := u.(type) {
+						case *ssa.Field:
+							if isRef(x.Type()) || containsRef(x.Type(), 0) {
+								bad = fmt.Sprintf("a reference held in package variable %s is taken out at %s", g.Name(), p.InstrPos(x))
+							}
+						case *ssa.DebugRef:
+						default:
+							bad = fmt.Sprintf("package variable %s (a struct holding maps, slices or pointers) is copied at %s: the copy shares them with every other copy", g.Name(), p.InstrPos(u))
+						}
+					}
+					r.add(bad == "", key, p.InstrPos(ld), firstNonEmpty(bad, "only scalar fields of the loaded value are used"))
+				}
 				return
 			}
 			nLoads++
@@ -359,6 +382,33 @@ func isTupleWithRef(t types.Type) bool {
 		case *types.Pointer, *types.Map, *types.Slice, *types.Interface, *types.Signature, *types.Chan:
 			return true
 		}
+	}
+	return false
+}
+
+// containsRef: a struct / array type with a field (recursively) of pointer, map, slice, interface, func or chan type.
+func containsRef(t types.Type, depth int) bool {
+	if depth > 4 {
+		return false
+	}
+	switch u := t.Underlying().(type) {
+	case *types.Struct:
+		for i := 0; i < u.NumFields(); i++ {
+			ft := u.Field(i).Type()
+			switch ft.Underlying().(type) {
+			case *types.Pointer, *types.Map, *types.Slice, *types.Interface, *types.Signature, *types.Chan:
+				return true
+			}
+			if containsRef(ft, depth+1) {
+				return true
+			}
+		}
+	case *types.Array:
+		switch u.Elem().Underlying().(type) {
+		case *types.Pointer, *types.Map, *types.Slice, *types.Interface, *types.Signature, *types.Chan:
+			return true
+		}
+		return containsRef(u.Elem(), depth+1)
 	}
 	return false
 }
